@@ -1,0 +1,81 @@
+//go:build verif
+
+package object_patch
+
+// Verification-only exports (build tag "verif") for property C13: a typed dump of a
+// parsed operation, so that the operations produced from a JSON and from a YAML
+// rendering of the same documents can be compared, and access to the decoded specs.
+
+import (
+	"fmt"
+	"sort"
+	"strings"
+
+	sdkpkg "github.com/deckhouse/module-sdk/pkg"
+)
+
+// VerifUnmarshalSpecs is unmarshalFromJSONOrYAML.
+func VerifUnmarshalSpecs(b []byte) ([]OperationSpec, error) { return unmarshalFromJSONOrYAML(b) }
+
+// VerifDescribeOperation returns the fields of a parsed operation.  Free-form values
+// (object, patch) are returned as they are held (no copy, no conversion).
+func VerifDescribeOperation(op sdkpkg.PatchCollectorOperation) map[string]any {
+	switch v := op.(type) {
+	case *createOperation:
+		return map[string]any{"op": "create", "object": v.object, "subresource": v.subresource,
+			"ignoreIfExists": v.ignoreIfExists, "updateIfExists": v.updateIfExists}
+	case *deleteOperation:
+		return map[string]any{"op": "delete", "apiVersion": v.apiVersion, "kind": v.kind, "namespace": v.namespace,
+			"name": v.name, "subresource": v.subresource, "propagation": string(v.deletionPropagation)}
+	case *patchOperation:
+		return map[string]any{"op": "patch", "apiVersion": v.apiVersion, "kind": v.kind, "namespace": v.namespace,
+			"name": v.name, "subresource": v.subresource, "patchType": string(v.patchType), "patch": v.patch,
+			"hasFilter": v.filterFunc != nil, "ignoreMissingObject": v.ignoreMissingObject, "ignoreHookError": v.ignoreHookError}
+	case nil:
+		return map[string]any{"op": "nil"}
+	}
+	return map[string]any{"op": fmt.Sprintf("%T", op)}
+}
+
+// VerifTypedDump renders a free-form value with the Go type of every scalar, keys sorted:
+// two values dump equally iff they are equal including dynamic types.
+func VerifTypedDump(v any) string {
+	var b strings.Builder
+	typedDump(&b, v)
+	return b.String()
+}
+
+func typedDump(b *strings.Builder, v any) {
+	switch x := v.(type) {
+	case nil:
+		b.WriteString("null")
+	case map[string]any:
+		keys := make([]string, 0, len(x))
+		for k := range x {
+			keys = append(keys, k)
+		}
+		sort.Strings(keys)
+		b.WriteString("{")
+		for i, k := range keys {
+			if i > 0 {
+				b.WriteString(",")
+			}
+			fmt.Fprintf(b, "%q:", k)
+			typedDump(b, x[k])
+		}
+		b.WriteString("}")
+	case []any:
+		b.WriteString("[")
+		for i, e := range x {
+			if i > 0 {
+				b.WriteString(",")
+			}
+			typedDump(b, e)
+		}
+		b.WriteString("]")
+	case string:
+		fmt.Fprintf(b, "%q", x)
+	default:
+		fmt.Fprintf(b, "%T(%v)", v, v)
+	}
+}
